@@ -125,16 +125,24 @@ func init() {
 			for _, call := range w.callsTo(f, "types#ValidatorSet.RescalePriorities") {
 				c.Check(w.expr(callArgs(call)[0]) == "(2 * vals.TotalVotingPower())", fk+" :: rescale window is 2 * total power", w.ipos(call), "2 * total", w.expr(callArgs(call)[0]))
 			}
-			for _, inc := range w.callsTo(f, "types#ValidatorSet.incrementProposerPriority") {
+			// one round = the single-step helper, or (inlined) the pick of the validator with most priority
+			rounds := w.callsTo(f, "types#ValidatorSet.incrementProposerPriority")
+			pick := "incrementProposerPriority()"
+			if len(rounds) == 0 {
+				rounds = w.callsTo(f, "types#ValidatorSet.getValWithMostPriority")
+				pick = "getValWithMostPriority()"
+			}
+			c.Check(len(rounds) == 1, fk+" :: round step found", w.pos(f.Pos()), "one round step in the loop", fmt.Sprintf("%d round steps", len(rounds)))
+			for _, inc := range rounds {
 				ok1, _ := mustPrecede(f, inc, w.callPred("types#ValidatorSet.shiftByAvgProposerPriority"))
 				ok2, _ := mustPrecede(f, inc, w.callPred("types#ValidatorSet.RescalePriorities"))
 				c.Check(ok1 && ok2, fk+" :: rescale and centre before the rounds", w.ipos(inc), "ordered", "rounds can run before rescaling/centring")
 				c.guards(f, inc, fk+" :: one round per requested time", 0, guardCmp("round counter below times", `phi\(.*\)`, "<", "times"))
 			}
 			got := storedFields(w, f, "ValidatorSet")
-			c.Check(strings.Contains(got["Proposer"], "incrementProposerPriority()"), fk+" :: proposer is the pick of the last round", w.pos(f.Pos()), got["Proposer"], "Proposer set to "+got["Proposer"])
+			c.Check(strings.Contains(got["Proposer"], pick), fk+" :: proposer is the pick of the last round", w.pos(f.Pos()), got["Proposer"], "Proposer set to "+got["Proposer"])
 		}
-		if f := c.fn("types", "ValidatorSet.incrementProposerPriority"); f != nil {
+		if f := w.Fn("types", "ValidatorSet.incrementProposerPriority"); f != nil && f.Blocks != nil {
 			rv := returnValues(f, 0)
 			c.Check(len(rv) == 1 && strings.HasSuffix(w.expr(rv[0]), ".getValWithMostPriority()"), funcKey(f)+" :: picks the validator with the most priority", w.pos(f.Pos()), "returns getValWithMostPriority()", "returns something else")
 		}
